@@ -316,3 +316,74 @@ def case(ch):
                                   sig="fault", fault_kind=fault_kind, site=site, cfg=_cfg_str(cfg))
                     return out
     return out
+
+
+# ---- model conformance: the simulated world against real processes on fixed cases -------------------------------
+def extra(tier, base_seed):
+    """Runs a few fixed configurations with the REAL multiprocessing (subprocess, watchdog) and compares the maps
+    byte for byte with the simulator's canonical run; also checks that /dev/shm is left as it was.
+    Returns (violations, harness_errors, info)."""
+    import json
+    import signal
+    import subprocess
+    import sys
+    import time
+    from simkit.choices import Choices
+    bw.setup()
+    ncases = 3 if tier == "quick" else 12
+    info = {"cases": 0, "identical": 0, "real_wall_s": 0.0, "configs": []}
+    viol, herr = [], []
+    here = os.path.dirname(os.path.dirname(os.path.abspath(__file__)))
+    for i in range(ncases):
+        ch = Choices(seed=(base_seed << 20) + 7919 * (i + 1))
+        cfg = bw.gen_config(ch, allow_thin=False)
+        content = bw.gen_content(ch, cfg)
+        img = bw.make_image(cfg, content)
+        fn = bw.write_image(os.path.join(bw.tmpdir(), "conf%d.fits" % i), cfg, img)
+        sim = _run(fn, cfg, bw.canonical_sched(0, 0), ch, fill="zeros")
+        if sim.status != "returned":
+            herr.append("conformance case %d: simulated run did not return (%s)" % (i, sim.status))
+            continue
+        outp = os.path.join(bw.tmpdir(), "conf%d.npz" % i)
+        before = set(n for n in os.listdir("/dev/shm") if n.startswith(("ibkg_", "irms_")))
+        t0 = time.time()
+        p = subprocess.Popen([sys.executable, os.path.join(here, "repro", "real_run.py"), fn, outp,
+                              json.dumps({k: cfg[k] for k in ("grid", "box", "cores", "mask", "nslice", "cube_index")})],
+                             stdout=subprocess.DEVNULL, stderr=subprocess.PIPE, stdin=subprocess.DEVNULL)
+        try:
+            _, err = p.communicate(timeout=60)
+            hung = False
+        except subprocess.TimeoutExpired:
+            hung = True
+            try:
+                os.killpg(p.pid, signal.SIGKILL)
+            except (ProcessLookupError, PermissionError):
+                p.kill()
+            p.communicate()
+        info["real_wall_s"] += time.time() - t0
+        after = set(n for n in os.listdir("/dev/shm") if n.startswith(("ibkg_", "irms_")))
+        left = sorted(after - before)
+        for n in left:
+            try:
+                os.unlink(os.path.join("/dev/shm", n))
+            except OSError:
+                pass
+        info["cases"] += 1
+        info["configs"].append(_cfg_str(cfg))
+        if hung:
+            viol.append({"kind": "real-hang", "message": "REAL processes: filter_image did not finish within 60 s for %s "
+                         "(the simulator's canonical run of the same input returned)" % _cfg_str(cfg), "cfg": _cfg_str(cfg)})
+            continue
+        if p.returncode != 0 or not os.path.exists(outp):
+            herr.append("conformance case %d (%s): real run failed rc=%s: %s" % (i, _cfg_str(cfg), p.returncode, (err or b"")[-300:]))
+            continue
+        if left:
+            viol.append({"kind": "real-shm-leak", "message": "REAL processes: segments left in /dev/shm: %s" % left, "cfg": _cfg_str(cfg)})
+        z = np.load(outp)
+        if _same_bits(z["bkg"], sim.bkg) and _same_bits(z["rms"], sim.rms):
+            info["identical"] += 1
+        else:
+            herr.append("model conformance: simulated and real maps differ for %s (the simulator misrepresents the code)" % _cfg_str(cfg))
+        os.remove(outp)
+    info["real_wall_s"] = round(info["real_wall_s"], 2)
+    return viol, herr, info
